@@ -42,22 +42,30 @@ def encode(doc, oracle):
     def refs(kind, objs):
         return [ref(kind, o) for o in objs]
 
-    for e in itertools.chain(adm.audioProgrammes, adm.audioContents):
-        if e.alternativeValueSets:
-            raise Outside("avs-reference")
-    if any(e.type.name == "Matrix" for e in itertools.chain(adm.audioPackFormats, adm.audioChannelFormats)):
-        raise Outside("matrix")
+    # alternativeValueSet elements -> tokens (identity); an AVS must be the child of at most one audioObject
+    tok, owner = {}, {}
+
+    def avs_tokens(lst):
+        return [tok.setdefault(id(a), len(tok)) for a in lst]
+
+    for oi, o in enumerate(adm.audioObjects):
+        for a in o.alternativeValueSets:
+            if owner.setdefault(id(a), oi) != oi:
+                raise Outside("avs-shared-between-objects")
     head = "%d %s %s" % (1 if (adm.version is None or D._imports()[0].version.version_at_least(adm.version, 2)) else 0,
                          _opt(doc.prog), _lst(doc.sel))
-    ps = [_lst(refs("ac", p.audioContents)) for p in adm.audioProgrammes]
-    cs = [_lst(refs("ao", c.audioObjects)) for c in adm.audioContents]
+    ps = ["%s %s" % (_lst(refs("ac", p.audioContents)), _lst(avs_tokens(p.alternativeValueSets)))
+          for p in adm.audioProgrammes]
+    cs = ["%s %s" % (_lst(refs("ao", c.audioObjects)), _lst(avs_tokens(c.alternativeValueSets)))
+          for c in adm.audioContents]
     os_ = []
     for o in adm.audioObjects:
         params = (o.start is not None or o.duration is not None or o.gain != 1.0 or o.mute
                   or o.positionOffset is not None or bool(o.alternativeValueSets))
         tracks = ",".join("s" if t is None else str(ref("atu", t)) for t in o.audioTrackUIDs) or "-"
-        os_.append("%s %s %s %s %d" % (_lst(refs("ao", o.audioObjects)), _lst(refs("apf", o.audioPackFormats)), tracks,
-                                       _lst(refs("ao", o.audioComplementaryObjects)), 1 if params else 0))
+        os_.append("%s %s %s %s %d %s" % (_lst(refs("ao", o.audioObjects)), _lst(refs("apf", o.audioPackFormats)), tracks,
+                                          _lst(refs("ao", o.audioComplementaryObjects)), 1 if params else 0,
+                                          _lst(avs_tokens(o.alternativeValueSets))))
     pks = []
     for p in adm.audioPackFormats:
         if p.absoluteDistance is not None or p.nfcRefDist is not None:
@@ -74,7 +82,8 @@ def encode(doc, oracle):
         bl = []
         for b in c.audioBlockFormats:
             cart = eq = 0
-            order = degree = norm = scr = None
+            order = degree = norm = scr = out = None
+            coeffs = "-"
             if c.type.name == "Objects":
                 cart = int(bool(b.cartesian) != isinstance(b.position, E.ObjectCartesianPosition))
             elif c.type.name == "HOA":
@@ -84,7 +93,18 @@ def encode(doc, oracle):
                 order, degree = b.order, b.degree
                 norm = None if b.normalization is None else NORM[b.normalization]
                 scr = None if b.screenRef is None else int(b.screenRef)
-            bl.append("%d:%d:%s:%s:%s:%s" % (cart, eq, _opt(order), _opt(degree), _opt(norm), _opt(scr)))
+            elif c.type.name == "Matrix":
+                if b.rtime is not None or b.duration is not None:
+                    raise Outside("matrix-block-time")
+                out = ref("acf", b.outputChannelFormat)
+                cos = []
+                for co in b.matrix:
+                    bad = (co.gainVar is not None or co.delayVar is not None or co.phaseVar is not None
+                           or co.phase is not None or (co.delay is not None and co.delay < 0))
+                    cos.append("%s.%d" % (_opt(ref("acf", co.inputChannelFormat)), int(bad)))
+                coeffs = ",".join(cos) or "-"
+            bl.append("%d:%d:%s:%s:%s:%s:%s:%s" % (cart, eq, _opt(order), _opt(degree), _opt(norm), _opt(scr),
+                                                   _opt(out), coeffs))
         freq = int(c.frequency.lowPass is not None or c.frequency.highPass is not None)
         chs.append("%d %d %s" % (TYPE_CODE[c.type.name], freq, "/".join(bl) or "-"))
     ss = ["%s %s" % (_opt(ref("acf", s.audioChannelFormat)), _opt(ref("apf", s.audioPackFormat)))
@@ -235,31 +255,42 @@ class C14(Spec):
     lean_targets = ("Earverif.Props.C14", "c14driver")
     props_module = "Earverif.Props.C14"
     theorems = tuple("Earverif.Validate." + t for t in (
-        "select_no_internal_partial", "validate_no_internal_partial", "conflicting_is_error", "ambiguous_is_error",
-        "diagnostics_total", "raiseError_adm", "hoa_reachable_one_block", "selectComplementary_noInt",
-        "hoaParams_ok_nonempty", "hoa_empty_pack_is_adm", "unsupported_type_is_adm"))
+        "select_no_internal_partial", "validate_no_internal_partial", "allocator_init_no_internal",
+        "conflicting_is_error", "ambiguous_is_error", "diagnostics_total", "raiseError_adm",
+        "multitree_sound", "multitreeSound_holds", "mtDfs_ok",
+        "validateMatrixTypes_noInt", "validateEncodeRef_noInt", "validateMatrixPack_ok", "patterns_noInt", "patterns_ok",
+        "matrixTrackSpec_noInt", "renderingItems_noInt",
+        "validateAvsReferences_noInt", "avs_refs_unique", "avsSelected_noInt", "avs_assert_total",
+        "hoa_reachable_one_block", "hoaParams_ok_nonempty", "selectComplementary_noInt",
+        "hoa_empty_pack_is_adm", "unsupported_type_is_adm", "coefficient_without_input_is_adm",
+        "encode_without_refs_is_adm", "shared_avs_defeats_validation"))
     trusted_base = (
-        "model Earverif/Model/AdmV.lean + Validate.lean: hand transliteration of ADM.validate (stream/trackFormat "
-        "element validators), validate.validate_structure (all _validate_* except _validate_avs_references and the "
-        "Matrix branch of _validate_matrix_types), validate_selected_audioTrackUID, possible_reference_errors and "
-        "helpers, and of select_items (_select_complementary_objects, _select_programme_content_objects, "
-        "select_pack_mapping, raise_error, _get_rendering_items incl. _get_pack_format_path and the HOA "
-        "get_single_param calls); references are list indices, identity comparison is index equality",
+        "model Earverif/Model/AdmV.lean + Validate.lean: hand transliteration of ADM.validate (MatrixCoefficient, "
+        "stream and trackFormat element validators), validate.validate_structure (every _validate_* function incl. the "
+        "Matrix branch of _validate_matrix_types and _validate_avs_references), matrix.type_of / input_pack_format, "
+        "validate_selected_audioTrackUID, possible_reference_errors and helpers, and of select_items "
+        "(_PackAllocator.get_wrapped_packs / wrap_matrix_pack, _select_complementary_objects, "
+        "_select_programme_content_objects, select_pack_mapping, raise_error, Regular/MatrixAllocationPack "
+        "output_pack / output_channel_allocation, _get_rendering_items incl. _get_pack_format_path, the HOA "
+        "get_single_param calls and _get_alternativeValueSet); references are list indices, identity comparison is "
+        "index (token) equality",
         "pack_allocation.allocate_packs is abstract (oracle: per call the first <= 2 solutions as indices into "
         "_PackAllocator.packs, recorded from the real allocator by wrapping it during the correspondence run); its "
-        "specification is property C07's subject; the model uses that every selected track occurs in a solution",
+        "specification is property C07's subject; the model uses that every selected track occurs in a solution and "
+        "that an allocated pack's allocation lists exactly the channels of that allocation pack",
         "graph walks in the model use fuel = number of elements (+1/+2); equality with Python's unbounded recursion "
         "on documents that passed the loop validations is not proved (checked by the correspondence)",
-        "hypothesis MultitreeSound of select_no_internal_partial (multitree validation accepts => each channel is on "
-        "exactly one pack path) is evaluated by the driver on every correspondence case, not proved",
         "audioProgramme ids increase with list position (generate_ids), so min(key=id) is the first programme",
     )
     assumptions = (
-        "documents are closed object graphs: every referenced element is registered in the ADM (wellScoped); "
-        "references point at elements of the right class and attribute values have the types the attrs validators "
-        "demand (cross-class references and wrong Python types are outside the quantifier)",
-        "modelled documents: no Matrix-typed pack/channel (search-only), no alternativeValueSet references from "
-        "programmes/contents (search-only), HOA rtime/duration/nfcRefDist and absoluteDistance unset",
+        "documents are closed object graphs: every referenced element is registered in the ADM (wellScoped) and an "
+        "alternativeValueSet element is the child of one audioObject (avsOwned; sharing one AlternativeValueSet "
+        "instance between two audioObjects is only possible through the Python API and does defeat the validation: "
+        "theorem shared_avs_defeats_validation); references point at elements of the right class and attribute "
+        "values have the types the attrs validators demand (cross-class references making attrs raise TypeError and "
+        "wrong Python types are outside the quantifier)",
+        "modelled parameter values: block rtime/duration, HOA nfcRefDist and pack absoluteDistance unset (never set "
+        "by the generators; a document using them is search-only)",
         "audio_programme argument is None or a programme of the document; selected_complementary_objects are "
         "objects of the document",
     )
@@ -276,7 +307,7 @@ class C14(Spec):
     # ---- case stream ----
 
     def recipes(self, ctx):
-        nvar = {"objects": 4, "comp": 3, "twoprog": 3, "chna": 6, "mixed": 4 if ctx.quick else 12}
+        nvar = {"objects": 4, "comp": 3, "twoprog": 3, "chna": 6, "avs": 4, "mixed": 4 if ctx.quick else 12}
         out = []
         for kind in D.DOC_KINDS:
             for style in (1, 2):
@@ -432,10 +463,6 @@ class C14(Spec):
             if faults and r["cls"] != "items":
                 sample = {"doc": rec, "faults": faults, "real": cls, "model": res}
             ctx.case((rec, faults), bool(faults), sample=sample)
-            if res == "unmodelled":
-                ctx.disagree("model says unmodelled for a document the harness considers modelled",
-                             {"doc": rec, "faults": faults}, out, cls)
-                continue
             if out == "bad-op":
                 ctx.disagree("driver rejected the document line", {"doc": rec, "faults": faults, "line": line}, out, cls)
                 continue
@@ -512,24 +539,29 @@ FORMER_FAMILIES = (
 
 REGISTRY = dict(
     text="PARTIAL: Lean theorem Earverif.Validate.select_no_internal_partial proves, for every well-scoped document "
-    "graph, programme/complementary selection and allocator outcome, that the model of select_rendering_items "
-    "(validate_structure, complementary objects, programme/content/object traversal, track validation, allocation "
-    "outcome none/one/many, raise_error diagnostics, rendering-item construction for Objects/DirectSpeakers/HOA, "
-    "AdmError for other pack types) never ends in a non-ADM exception, by a chain of 'after _validate_X succeeded, "
-    "step Y is total' lemmas; validate_no_internal_partial (validate_structure alone, no hypothesis); "
-    "conflicting_is_error / ambiguous_is_error (0 or >=2 allocations: never items, never a non-ADM exception); "
-    "diagnostics_total (possible_reference_errors is total for both referencing styles). _partial because: Matrix "
-    "types, alternativeValueSet references, message formatting, attrs validators and recursion depth are outside the "
-    "model, and hypothesis MultitreeSound (multitree validation accepts => each channel on exactly one pack path) is "
-    "checked per case by the driver instead of proved. The model is tied to the code on every run by a fault "
-    "injector (every single fault at every site + sampled double faults on 19 kinds of generated documents in both "
-    "referencing styles) comparing items count / AdmError message family / exception type; the direct predicates "
-    "(only AdmError escapes; items only when an independent brute-force count of the allocations is exactly 1) run "
-    "on the same stream including the Matrix and alternativeValueSet documents and, in the thorough tier, on triple "
+    "graph (Matrix packs and alternativeValueSets included), programme/complementary selection and allocator "
+    "outcome, that the model of select_rendering_items never ends in a non-ADM exception, by a chain of 'after "
+    "_validate_X succeeded, step Y is total' lemmas: validate_structure with all thirteen _validate_* functions "
+    "(validate_no_internal_partial: no hypothesis; every matrix.type_of, [encode_apf] = ..., [block_format] = ... and "
+    "'assert obj is not None' is preceded by its guard in any declaration order), the allocator's packs "
+    "(allocator_init_no_internal: wrap_matrix_pack), complementary objects, programme/content/object traversal, "
+    "track validation, allocation outcome none/one/many, raise_error diagnostics, Regular/Matrix "
+    "output_channel_allocation (matrixTrackSpec_noInt) and rendering-item construction incl. _get_pack_format_path "
+    "(multitree_sound: multitree validation accepts => each channel on exactly one pack path, proved) and "
+    "_get_alternativeValueSet (avs_assert_total); conflicting_is_error / ambiguous_is_error (0 or >=2 allocations: "
+    "never items, never a non-ADM exception); diagnostics_total (possible_reference_errors is total for both "
+    "referencing styles). _partial only because message formatting, attrs validators (cross-class references), "
+    "recursion depth and a few parameter values the generators leave unset (rtime/duration, nfcRefDist, "
+    "absoluteDistance) are outside the model; the allocator itself is abstract (C07). The model is tied to the "
+    "code on every run by a fault injector (every single fault at every site + sampled double faults on 19 kinds of "
+    "generated documents in both referencing styles, all inside the model) comparing items count / AdmError message "
+    "family / exception type; the direct predicates (only AdmError escapes; items only when an independent "
+    "brute-force count of the allocations is exactly 1) run on the same stream and, in the thorough tier, on triple "
     "faults.",
     note="Five families of escaping non-ADM exceptions found by this check were repaired in /repo (0d9f6b4, 03146b0, "
     "592dfc9, 76cae51); each is reported again under its tag internal:<exception>:<function> if it returns. "
-    "Cross-class references (attrs validators raising TypeError) are outside the quantifier. Trusted: Lean kernel, "
+    "Outside the quantifier: cross-class references (attrs TypeError) and an AlternativeValueSet instance shared by "
+    "two audioObjects (AssertionError in _get_alternativeValueSet; not producible from XML). Trusted: Lean kernel, "
     "the hand transliteration + correspondence, the abstract allocator (C07).",
     technique="Lean 4 proof (validation-order lemma chain over an Except-valued transliteration) + fault-injection "
     "differential correspondence + direct predicate search on the real code",
